@@ -227,12 +227,14 @@ class StructShim(object):
     @staticmethod
     def _parse(fmt):
         order = sys.byteorder
+        native = True          # native size *and alignment* ('@' or no prefix)
         i = 0
         if fmt and fmt[0] in '!><=@':
             if fmt[0] in '!>':
                 order = 'big'
             elif fmt[0] == '<':
                 order = 'little'
+            native = fmt[0] == '@'
             i = 1
         items = []
         num = ''
@@ -246,7 +248,7 @@ class StructShim(object):
                     items.append(('s', n))
                 else:
                     for _ in range(n):
-                        items.append((ch, 1))
+                        items.append(('h' if (ch == 'H' and native) else ch, 1))
                 num = ''
             else:
                 raise AssertionError('struct shim: unsupported format %r' % (fmt,))
@@ -266,11 +268,13 @@ class StructShim(object):
                 if not (0 <= a <= 255):
                     raise cls.error('ubyte format requires 0 <= number <= 255')
                 out += a.to_bytes(1, 'big')
-            elif code == 'H':
+            elif code == 'H' or code == 'h':     # 'h' = native-aligned unsigned short
                 if not isinstance(a, int):
                     raise cls.error('required argument is not an integer')
                 if not (0 <= a <= 65535):
                     raise cls.error('ushort format requires 0 <= number <= 65535')
+                if code == 'h' and len(out) % 2:
+                    out += b'\x00'
                 out += a.to_bytes(2, order)
             else:
                 if not isinstance(a, (bytes, bytearray)):
@@ -286,7 +290,17 @@ class StructShim(object):
     @classmethod
     def calcsize(cls, fmt):
         _o, items = cls._parse(fmt)
-        return sum({'B': 1, 'H': 2}.get(c, n) if c != 's' else n for c, n in items)
+        size = 0
+        for c, n in items:
+            if c == 'B':
+                size += 1
+            elif c == 's':
+                size += n
+            else:
+                if c == 'h' and size % 2:
+                    size += 1
+                size += 2
+        return size
 
     @classmethod
     def unpack(cls, fmt, data):
@@ -300,7 +314,9 @@ class StructShim(object):
             if code == 'B':
                 out.append(data[pos])
                 pos += 1
-            elif code == 'H':
+            elif code == 'H' or code == 'h':
+                if code == 'h' and pos % 2:
+                    pos += 1
                 out.append(int.from_bytes(data[pos:pos + 2], order))
                 pos += 2
             else:
@@ -336,6 +352,7 @@ def struct_formats_in(path):
 def validate_struct_shim(fmts):
     import struct as real
     vals = {'B': [0, 1, 127, 255], 'H': [0, 1, 255, 256, 0x1234, 65535]}
+    vals['h'] = vals['H']
     for f in fmts:
         if f == '<dynamic>':
             raise AssertionError('struct shim: non-literal format in socks.py; extend the scan')
